@@ -277,3 +277,17 @@ def conclude(agg):
     if c["node_positions_checked"] < 5000:
         out.append(f"only {c['node_positions_checked']} node positions checked")
     return out
+
+
+def replay(rec):
+    from sqlglot.dialects.dialect import Dialect
+    from ..runner import ReplayCtx
+
+    ctx = ReplayCtx()
+    case = rec["case"]
+    d = "" if case.get("dialect") in (None, "base") else case["dialect"]
+    D = Dialect.get_or_raise(d)
+    toks = check_tokens(ctx, case["sql"], d, D, comment_regex(D), case)
+    if toks is not None:
+        check_parse(ctx, case["sql"], d, case)
+    return ctx.report()
